@@ -61,13 +61,14 @@ def labels(objs):
     return out
 
 
-def compare_select(sv, case, ast, text=None, api=None, budget=20.0, match_law=False, match_kw=None):
+def compare_select(sv, case, ast, text=None, api=None, budget=20.0, match_law=False, match_kw=None, check_structure=True):
     """Compare sv.select(text, target) with the reference.
 
     Returns (status, info): status in 'agree', 'unspec', 'DISAGREE', 'RAISE', 'BUDGET';
     info['nontrivial'] says whether the expected set is neither empty nor everything.
     """
-    text = text if text is not None else sels.render(ast)
+    canon = sels.render(ast)
+    text = text if text is not None else canon
     ref = case.ref()
     exp, unspec = ref.select(ast, case.target_sn)
     call = api or (lambda: sv.select(text, case.target_obj, namespaces=case.nsmap))
@@ -80,6 +81,17 @@ def compare_select(sv, case, ast, text=None, api=None, budget=20.0, match_law=Fa
         info['exc'] = '%s: %s' % (type(got).__name__, str(got)[:200])
         info['site'] = monitors.exc_site(got)
         return 'RAISE', info
+    if text != canon and check_structure:
+        # a CSS-insignificant respelling must compile to the same structure as the canonical rendering
+        try:
+            kw = dict(match_kw or {})
+            if sv.compile(text, case.nsmap, **kw).selectors != sv.compile(canon, case.nsmap, **kw).selectors:
+                info['got'] = 'structure of the respelling differs'
+                info['exp'] = 'canonical: %s' % canon[:200]
+                return 'DISAGREE', info
+        except Exception as ex:  # noqa: BLE001
+            info['exc'] = 'respelling/canonical compile: %r' % ex
+            return 'RAISE', info
     # reference-free side law (catches state that leaks from one element's evaluation into the next within a call):
     # for :scope-free selectors, select() membership must equal match() asked for each element alone
     if match_law and ':scope' not in text and '&' not in text:
